@@ -946,6 +946,8 @@ func Run(c *vk.Ctx) {
 		w.runLive(replay)
 	case "xpage":
 		w.runXpage(replay)
+	case "protlog":
+		runProtlog(c)
 	default:
 		vk.Fatalf("unknown sub %q", sub)
 	}
